@@ -141,6 +141,11 @@ def rule_write(R):
     pb, pcode = cm["perform_outbound_step"]
     R.touch(pcode)
     ws = [c for c in pcode.calls.values() if c.bb in pcode.reachable and c.is_("write_current")]
+    inline_write = False
+    if not ws:
+        # the single-write helper was folded into the step function: the transport write itself is the site
+        ws = [c for c in pcode.calls.values() if c.bb in pcode.reachable and c.path == IO_WRITE]
+        inline_write = True
     R.exact("write/sites", len(ws), 1, "write sites in perform_outbound_step")
     t = peel(pcode.operand_term(ws[0].args[1]))
     ok = is_call(t, "Index::index", "index") and len(t[3]) == 2
@@ -171,20 +176,26 @@ def rule_write(R):
                  % show(fl["written"]), where=s["span"])
     R.floor("write/step-fields", n, 3, "WriteStep constructions")
     # write_current: Ok(0) -> WriteZero, Ok(n) -> n
-    wc = f.code(roles.free_fn(f, "write_current"))
+    wc = pcode if inline_write else f.code(roles.free_fn(f, "write_current"))
     w = [c for c in wc.calls.values() if c.bb in wc.reachable and c.path == IO_WRITE]
     okz = len(w) == 1
     if okz:
-        alts = phi_alts(wc.local_term(0))
-        oks = [a for a in alts if a[0] == "agg" and a[3] == "Ok"]
-        okz = len(oks) == 1 and chain(oks[0][5][0])[1] == ["@Ok", "0"] and derived_from(oks[0], w[0].bb)
+        if inline_write:
+            okz = True   # the count is used in place (C13.store checks what is recorded); only the zero case remains
+        else:
+            alts = phi_alts(wc.local_term(0))
+            oks = [a for a in alts if a[0] == "agg" and a[3] == "Ok"]
+            okz = len(oks) == 1 and chain(oks[0][5][0])[1] == ["@Ok", "0"] and derived_from(oks[0], w[0].bb)
         zero = False
         for bb in wc.switches:
             si = wc.switch_info(bb)
-            if derived_from(si["subject"], w[0].bb) and si["edges"].get(0) is not None:
-                vals = [wc.rvalue_term(s2["rv"]) for x in wc.reach([si["edges"][0]]) - wc.reach([si["otherwise"]]) for s2 in wc.blocks[x]["stmts"]
-                        if s2["k"] == "assign" and s2["dst"]["l"] == 0]
-                zero = bool(vals) and all("WriteZero" in show(v) for v in vals)
+            if derived_from(si["subject"], w[0].bb) and any(k_ == 0 and not isinstance(k_, bool) for k_ in si["edges"]):
+                from .. import paths as _paths
+                vals = []
+                for lf in _paths.explore(wc, si["edges"][0], lambda t_: False, lambda b_, x_: False, max_paths=3000):
+                    if lf["kind"] == "return":
+                        vals.append(_paths.value_on_path(wc, [bb] + lf["path"], 0))
+                zero = bool(vals) and all(v is not None and "WriteZero" in show(v) for v in vals)
         okz = okz and zero
     R.ob("write/current", okz, "write_current returns exactly the count the transport accepted and reports 0 as WriteZero", where=wc.span)
     # write_all: cursor advances by the returned count
